@@ -252,3 +252,87 @@ func tokenTextArg(v ssa.Value, depth int) bool {
 	}
 	return false
 }
+
+// textIntactRule: the characters the scanner sees are the characters the caller passed: Read_str hands its text
+// to the tokenizer unchanged, and the tokenizer feeds its parameter to the scanner unchanged.  (Any rewriting
+// here also rewrites the inside of string literals, and shifts every position.)
+func textIntactRule(w *World, r *Report, rule string) {
+	r.rule(rule, "the text given to Read_str reaches the scanner unchanged: Read_str passes its own parameter to the tokenizer, and the tokenizer initialises the scanner with a reader over its own parameter (no replacement, trimming or normalisation of the source text on the way; string literals would be rewritten with it)")
+	rs, tk := w.Fn("reader", "Read_str"), w.Fn("reader", "tokenize")
+	if rs == nil || tk == nil {
+		r.undecided(rule, nil, "Read_str/tokenize", token.NoPos, "function no longer resolves")
+		return
+	}
+	n := 0
+	// identity up to the parameters of unexported helpers in between
+	var isParamOf func(v ssa.Value, root *ssa.Function, depth int) bool
+	isParamOf = func(v ssa.Value, root *ssa.Function, depth int) bool {
+		p, ok := v.(*ssa.Parameter)
+		if !ok || depth > 4 {
+			return false
+		}
+		if p.Parent() == root {
+			return isStringVal(p)
+		}
+		args := w.callSiteArgs(p)
+		if len(args) == 0 {
+			return false
+		}
+		for _, a := range args {
+			if !isParamOf(a, root, depth+1) {
+				return false
+			}
+		}
+		return true
+	}
+	for _, f := range w.withPkgHelpers(rs) {
+		for _, c := range staticCallsTo(f, tk) {
+			n++
+			r.check(isParamOf(c.Call.Args[0], rs, 0), rule, f, "text handed to the tokenizer", c.Pos(), "the text given to Read_str, unchanged", "the text is altered before it is tokenized ("+describeVal(nil, c.Call.Args[0], 0)+"): characters inside string literals change with it and positions are counted in the altered text")
+		}
+	}
+	for _, f := range w.withPkgHelpers(tk) {
+		for _, b := range f.Blocks {
+			for _, in := range b.Instrs {
+				c, ok := in.(*ssa.Call)
+				if !ok || c.Call.StaticCallee() == nil || c.Call.StaticCallee().Name() != "NewReader" || fnPkgPath(c.Call.StaticCallee()) != "strings" {
+					continue
+				}
+				n++
+				r.check(isParamOf(c.Call.Args[0], tk, 0), rule, f, "text the scanner reads", c.Pos(), "the tokenizer's own parameter, unchanged", "the tokenizer rewrites the source text before scanning ("+describeVal(nil, c.Call.Args[0], 0)+"): the replacement also applies inside string and raw-string literals")
+			}
+		}
+	}
+	r.floor(rule, "hand-overs of the source text", n, 2)
+}
+
+
+// keywordInjectiveRule: the keyword constructor prepends the marker to every name, also to a name that itself
+// begins with the marker (otherwise two different keywords share one representation and print/read merges them).
+func keywordInjectiveRule(w *World, r *Report, rule string) {
+	r.rule(rule, "NewKeyword returns the marker followed by its argument on every path (an injective encoding): the reader can hand it any name, including one that begins with the marker letter")
+	fn := w.Fn("types", "NewKeyword")
+	if fn == nil {
+		r.undecided(rule, nil, "NewKeyword", token.NoPos, "function no longer resolves")
+		return
+	}
+	n := 0
+	for _, b := range fn.Blocks {
+		if len(b.Instrs) == 0 {
+			continue
+		}
+		ret, ok := b.Instrs[len(b.Instrs)-1].(*ssa.Return)
+		if !ok || len(ret.Results) != 1 {
+			continue
+		}
+		n++
+		okV := false
+		if bo, ok := ret.Results[0].(*ssa.BinOp); ok && bo.Op == token.ADD {
+			if k, ok := constString(bo.X); ok && k != "" && bo.Y == ssa.Value(fn.Params[0]) {
+				okV = true
+			}
+		}
+		r.check(okV, rule, fn, "value returned by NewKeyword", ret.Pos(), "marker + name", "a path returns something other than the marker followed by the name ("+describeVal(nil, ret.Results[0], 0)+"): the keyword whose name starts with the marker and the keyword without it get the same representation")
+	}
+	r.floor(rule, "returns of NewKeyword", n, 1)
+}
